@@ -488,11 +488,22 @@ def report(prop, mod, a, outs, seed, t0):
                 prop, path, n, tail))
         return 1
     if any(not b['ok'] for b in bounded):
+        # a bounded stand-in is never counted as proved, but a failing case
+        # it found is a concrete failing input on the real code
         for b in bounded:
             if not b['ok']:
-                print('BOUNDED-CHECK-FAILED %s %s' % (b['name'],
-                                                      b['detail'][:300]))
-        return 2
+                path = os.path.join(VERIF, 'replays', '%s__bounded_%s.json'
+                                    % (prop, b['name'].replace('/', '_')))
+                with open(path, 'w') as f:
+                    json.dump(dict(property=prop, obligation=b['name'],
+                                   verdict='bounded-check-failed',
+                                   why='failing case found by the bounded '
+                                   'stand-in on the real code',
+                                   bound=b['bound'], replay=b['detail']), f,
+                              indent=1, default=str)
+                print('VIOLATION property=%s replay=%s obligation=%s '
+                      '(bounded stand-in)' % (prop, path, b['name']))
+        return 1
     if undecided:
         for r in undecided:
             print('UNDECIDED %s (%s) %s' % (
